@@ -235,6 +235,58 @@ theorem reifyG_tree (s : State) (hd : s.dstore = []) (hp : s.panic = none) (hst 
   rw [eR, eE]
   exact ansS_conj_single dfs (pf + 2) (M + 1) hE' hRF'
 
+/-- the goal `enforce_constraints_fd` runs after labelling the query term -/
+def enforceDyn (ord : Order) : G :=
+  .dyn id fun st =>
+    if st.panic.isSome then .succeed
+    else if !st.allBound then .atom (liftRes fun _ => .panic "unbound-domain")
+    else Goal.onceo [forceAns ord forceFuel (Term.ofList ((ord.ds st.dstore).map fun p => Term.var p.1))]
+
+omit [Mode] in
+theorem enforceFd_eq (ord : Order) (x : Term) :
+    enforceFd ord x = .conj (forceAns ord forceFuel x) (.conj (enforceDyn ord) .succeed) := by
+  unfold enforceFd enforceDyn
+  show mkConj _ (mkConj _ .succeed) = _
+  unfold mkConj
+  rfl
+
+/-- ASSEMBLY OF `enforce_constraints_fd` ON THE ENGINE.  Let the labelling of the query term deliver the blocks `xs`
+    (textbook order), and let `o c` be what the `onceo` over the remaining domain variables delivers from block `c`
+    (`C17_hidden_onceo`: at most one closed state; one iff the block has a solution).  Then the whole goal delivers, for
+    some engine order `xs'` of the blocks, exactly the states `o c` — one per block that has one, none for the others. -/
+theorem enforce_compose (ord : Order) (x : Term) (s : State) (N : Nat) (xs : List State) (o : State → Option State)
+    (h1 : evalRef dfs N (forceAns ord forceFuel x) s = some xs)
+    (hb : ∀ c ∈ xs, c.panic = none ∧ c.allBound = true ∧
+      start dfs (solveAt dfs pf (M + 1)) pf
+        (Goal.onceo [forceAns ord forceFuel (Term.ofList ((ord.ds c.dstore).map fun p => Term.var p.1))]) c = firstStrm (o c)) :
+    ∃ xs', xs.Perm xs' ∧
+      AnsS (solveAt dfs pf (M + 2)) (solveAt dfs pf (M + 2) (enforceFd ord x) s) (xs'.flatMap fun c => (o c).toList) := by
+  obtain ⟨xs', hxs, px⟩ := ref_perm dfs pf (M + 1) N _ s xs h1 (M + 1)
+  refine ⟨xs', px, ?_⟩
+  rw [enforceFd_eq]
+  refine ansS_conj dfs pf (M + 1) hxs ?_
+  have hb' : ∀ c ∈ xs', c.panic = none ∧ c.allBound = true ∧
+      start dfs (solveAt dfs pf (M + 1)) pf
+        (Goal.onceo [forceAns ord forceFuel (Term.ofList ((ord.ds c.dstore).map fun p => Term.var p.1))]) c = firstStrm (o c) :=
+    fun c hc => hb c (px.mem_iff.2 hc)
+  clear hxs px hb h1
+  induction xs' with
+  | nil => exact .nil
+  | cons c rest ih =>
+    simp only [List.flatMap_cons]
+    refine .cons ?_ (ih fun c' hc' => hb' c' (List.mem_cons_of_mem _ hc'))
+    obtain ⟨hp, hab, hst⟩ := hb' c List.mem_cons_self
+    show AnsS _ (Strm.lazyBind (.pause c (enforceDyn ord)) .succeed) _
+    simp only [Strm.lazyBind, Goal.isSucceed, if_true]
+    refine .lazy (.pause ?_)
+    show AnsS _ (start dfs (solveAt dfs pf (M + 1)) pf (enforceDyn ord) c) _
+    unfold enforceDyn
+    simp only [start, id, hp, Option.isSome_none, Bool.false_eq_true, if_false, hab, Bool.not_true]
+    rw [hst]
+    cases o c with
+    | none => exact .empty
+    | some b => exact .unit b
+
 end Engine
 
 end Pv
